@@ -14,6 +14,7 @@ import (
 	"path"
 	"sync"
 	"testing"
+	"time"
 
 	"github.com/tikv/pd/pkg/typeutil"
 	"github.com/tikv/pd/server/id"
@@ -463,6 +464,9 @@ func runCase(c Case) (vkit.Info, error) {
 			}
 			ok := sc.Run(op.Sched, nil)
 			sc.Disable()
+			if !sc.Wait(60 * time.Second) {
+				ok = false
+			}
 			w.sched = nil
 			w.mu.Lock()
 			w.failNext = [3]string{}
